@@ -334,6 +334,87 @@ impl<K: Borrow<T>, T: ?Sized + 'static> RewindableIoLender<T> for VecLender<K, T
     }
 }
 
+/// An in-memory `BufRead + Seek` source for the crate's own `LineLender` with the same fault
+/// injection as `VecLender`: an I/O error exactly when the reader stands at the first byte of line
+/// `idx` in pass `pass` (i.e. before any byte of that line has been read), or at the `nth` rewind
+/// (`seek` to the start).
+pub struct FaultyCursor {
+    data: Vec<u8>,
+    pos: usize,
+    pass: usize,
+    /// (pass, byte offset)
+    at: Option<(usize, usize)>,
+    rewind: Option<usize>,
+    passes: Arc<AtomicUsize>,
+}
+impl FaultyCursor {
+    fn new(keys: &[String], fault: LFault, passes: Arc<AtomicUsize>) -> Self {
+        passes.store(1, Ordering::SeqCst);
+        let data = join_lines(keys);
+        let (at, rewind) = match fault {
+            LFault::None => (None, None),
+            LFault::At { pass, idx } => {
+                if idx > keys.len() {
+                    // never reached (as in `VecLender`); idx == len is the end of the data
+                    (None, None)
+                } else {
+                    let off: usize = keys.iter().take(idx).map(|k| k.len() + 1).sum();
+                    (Some((pass, off)), None)
+                }
+            }
+            LFault::Rewind { nth } => (None, Some(nth)),
+        };
+        FaultyCursor { data, pos: 0, pass: 1, at, rewind, passes }
+    }
+}
+impl io::Read for FaultyCursor {
+    fn read(&mut self, buf: &mut [u8]) -> io::Result<usize> {
+        let n = {
+            let avail = io::BufRead::fill_buf(self)?;
+            let n = Ord::min(avail.len(), buf.len());
+            buf[..n].copy_from_slice(&avail[..n]);
+            n
+        };
+        io::BufRead::consume(self, n);
+        Ok(n)
+    }
+}
+impl io::BufRead for FaultyCursor {
+    fn fill_buf(&mut self) -> io::Result<&[u8]> {
+        let mut end = self.data.len();
+        if let Some((p, off)) = self.at {
+            if p == self.pass {
+                if self.pos == off {
+                    return Err(io::Error::new(io::ErrorKind::Other, "injected"));
+                }
+                if off > self.pos {
+                    end = off; // stop exactly at the faulty offset
+                }
+            }
+        }
+        Ok(&self.data[self.pos..end])
+    }
+    fn consume(&mut self, amt: usize) {
+        self.pos += amt;
+    }
+}
+impl io::Seek for FaultyCursor {
+    fn seek(&mut self, to: io::SeekFrom) -> io::Result<u64> {
+        match to {
+            io::SeekFrom::Start(0) => {
+                if self.rewind == Some(self.pass) {
+                    return Err(io::Error::new(io::ErrorKind::Other, "injected rewind"));
+                }
+                self.pass += 1;
+                self.pos = 0;
+                self.passes.store(self.pass, Ordering::SeqCst);
+                Ok(0)
+            }
+            _ => Err(io::Error::new(io::ErrorKind::Unsupported, "only rewinds")),
+        }
+    }
+}
+
 // ---------------------------------------------------------------------------------------------
 // build specification = the tokens of a `build` line
 
@@ -953,7 +1034,7 @@ macro_rules! key_lender {
         FromIntoIterator::from((*$keys).clone())
     };
     (line, $KK:ty, $spec:expr, $keys:expr, $kf:expr, $kp:expr) => {
-        LineLender::new(std::io::Cursor::new(join_lines(&$keys)))
+        LineLender::new(FaultyCursor::new(&$keys, $kf, $kp.clone()))
     };
     (take, $KK:ty, $spec:expr, $keys:expr, $kf:expr, $kp:expr) => {
         FromIntoIterator::from(0..2 * $spec.n).take($spec.n)
@@ -2320,6 +2401,12 @@ pub fn run(ctx: &mut Ctx) {
         fault_cases(ctx, &base_spec(&fc, 50), &o, &some, thorough);
         let sc = combo_of("func", "vec", "str", "64", "box", 1, "noshards");
         fault_cases(ctx, &base_spec(&sc, 41), &o, &some, thorough);
+        // the crate's own LineLender over a reader that fails exactly at a line start: the error
+        // must surface as an error of the build, never as an early end of the key stream
+        let lc = combo_of("func", "line", "str", "size", "bfv", 2, "shards");
+        fault_cases(ctx, &base_spec(&lc, 45), &o, &some, thorough);
+        let lfc = combo_of("filter", "line", "str", "8", "box", 2, "shards");
+        fault_cases(ctx, &base_spec(&lfc, 30), &o, &[0, 1, 15, 29, 30], thorough);
         // sampled beyond index 40 in a larger set
         let mut big = base_spec(&box_func, 3000);
         big.vs = Vs::Rnd(8);
